@@ -23,7 +23,8 @@
    Aliases, services, security profiles and data directories are not modelled (tasks of other managers are opaque). *)
 From Coq Require Import List NArith ZArith Bool.
 Import ListNotations.
-Require Import V.models.SnapSeq V.proofs.SnapSeqProofs V.proofs.SnapSeqProofs2 V.proofs.SnapSeqProofs3.
+Require Import V.models.SnapSeq V.proofs.SnapSeqProofs V.proofs.SnapSeqProofs2 V.proofs.SnapSeqProofs3 V.proofs.SnapSeqProofs4
+               V.proofs.SnapSeqProofs5.
 Open Scope N_scope.
 
 (* run_change o (S j) ts s: the first j tasks of ts complete, the next one fails, the j tasks are undone in reverse.
@@ -38,30 +39,20 @@ Theorem C10_failed_op_restores : forall (s : st) (o : op) (j : nat) (retain : Z)
 Proof. exact failed_op_restores. Qed.
 Print Assumptions C10_failed_op_restores.
 
-(* what IS restored when discards already ran — PARTIAL.  Full statement (DESIGN): for every refresh and every failure
-   position, everything is restored except that the revisions whose discard-snap completed are gone, the order of the
-   remaining ones preserved.  Proved for every refresh to a NOT-YET-KEPT revision (the usual refresh; retain >= 2, any in-use
-   answer, any failure position j, also after the last task): the result is the state before `minus` exactly the revisions
-   of the discard-snap tasks among the first j tasks (their kept entries, mounts and RevertStatus marks go; current, active,
-   channel, flags, times, configuration, link and the order of the others are as before).  For a refresh to an ALREADY KEPT
-   revision (undoLinkSnap's countMissingRevs arithmetic with a non-zero count) the same conclusion is proved in
-   C10_failed_after_gc_kept_partial below, under the explicit hypothesis that the garbage collection picks neither the
-   target nor the current revision (C12 proves that for not-yet-kept targets only; for kept targets it is a computable
-   condition on gc_revs, and the driver compares the discarded set with gc_revs on the real code). *)
+(* what IS restored when discards already ran.  DESIGN's statement: for every refresh and every failure position,
+   everything is restored except that the revisions whose discard-snap completed are gone, the order of the remaining ones
+   preserved.  Proved for EVERY refresh (to a not-yet-kept or to an already kept revision — the latter is undoLinkSnap's
+   countMissingRevs arithmetic with a non-zero count), every retain >= 2, any in-use answer, any failure position j (also
+   after the last task): the result is the state before `minus` exactly the revisions of the discard-snap tasks among the
+   first j tasks (their kept entries, mounts and RevertStatus marks go; current, active, channel, flags, times,
+   configuration, link and the ORDER of the others are as before).  Still `_partial` only because of cfg_guard (finding 13)
+   and retain >= 2 (configuration accepts 2..20); install and revert changes have no discards. *)
 Theorem C10_failed_after_gc_partial : forall (s : st) (o : op) (j : nat) (retain : Z) (inuse : N -> bool),
-  wf s -> okind o = ORefresh -> accepts o s = true -> ~ In (orev o) (seq s) -> (2 <= retain)%Z -> cfg_guard o s ->
+  wf s -> okind o = ORefresh -> accepts o s = true -> (2 <= retain)%Z -> cfg_guard o s ->
   forget (run_change o (S j) (tasks_for o s retain inuse) s)
   = forget (minus (map snd (filter is_discard (firstn j (tasks_for o s retain inuse)))) s).
-Proof. exact failed_after_gc. Qed.
+Proof. exact failed_after_gc_any. Qed.
 Print Assumptions C10_failed_after_gc_partial.
-
-Theorem C10_failed_after_gc_kept_partial : forall (s : st) (o : op) (j : nat) (retain : Z) (inuse : N -> bool),
-  wf s -> okind o = ORefresh -> accepts o s = true -> In (orev o) (seq s) -> cfg_guard o s ->
-  ~ In (orev o) (gc_revs s (orev o) retain inuse) -> ~ In (cur s) (gc_revs s (orev o) retain inuse) ->
-  forget (run_change o (S j) (tasks_for o s retain inuse) s)
-  = forget (minus (map snd (filter is_discard (firstn j (tasks_for o s retain inuse)))) s).
-Proof. exact failed_after_gc_kept. Qed.
-Print Assumptions C10_failed_after_gc_kept_partial.
 
 (* the shape that exercises it: kept [1,2,3,4,5], current 5, retain lowered to 2, refresh to the kept revision 4 failing
    after the discards of 1 and 2: kept [3,4,5], the order of the survivors as before *)
